@@ -118,6 +118,7 @@ class Item(object):
         self.item = item
         self.kind = item[0]
         self.cmd = item[1] if self.kind in ("g", "at") else None
+        self.active_before = self.active_after = True
         self.u_before = self.u_after = None
         self.u_step = None
         self.f_before = None
@@ -198,10 +199,11 @@ def run(case, filter_factory=DirectFilter, stop_on_exception=True, observer=None
     tr.pu, tr.pf = pu, pf
     enabled = True
     is_open = False
+    active = True
     ever_nontrivial = False
     for idx, item in enumerate(case["prog"]):
         it = Item(idx, item)
-        it.open_before, it.enabled_before = is_open, enabled
+        it.open_before, it.enabled_before, it.active_before = is_open, enabled, active
         it.regions = list(regions)
         it.u_before = pu.snap()
         it.f_before = pf.snap()
@@ -245,6 +247,28 @@ def run(case, filter_factory=DirectFilter, stop_on_exception=True, observer=None
                 it.out = normalise(it.cmd, it.raw)
             except Exception as exc:  # pylint: disable=broad-except
                 it.exception = "%s: %s" % (type(exc).__name__, exc)
+        elif it.kind == "hook":
+            # ["hook", scriptType, scriptName]: octoprint.comm.protocol.scripts hook (plugin layer only)
+            if active and is_open and item[1] == "gcode" and item[2] == "afterPrintDone":
+                is_open = False
+                it.closing = True
+                tr.episodes_closed += 1
+            try:
+                it.raw = flt.h.script(item[1], item[2])
+                if it.raw is not None:
+                    it.out = list(it.raw[0] or []) + list(it.raw[1] or [])
+            except Exception as exc:  # pylint: disable=broad-except
+                it.exception = "%s: %s" % (type(exc).__name__, exc)
+        elif it.kind == "event":
+            # ["event", NAME]: OctoPrint event delivered to the plugin (plugin layer only)
+            if item[1] == "PRINT_STARTED":
+                active, is_open, enabled = True, False, True
+            elif item[1] in ("PRINT_DONE", "PRINT_FAILED", "PRINT_CANCELLING", "PRINT_CANCELLED", "ERROR"):
+                active = False
+            try:
+                flt.h.event(item[1])
+            except Exception as exc:  # pylint: disable=broad-except
+                it.exception = "%s: %s" % (type(exc).__name__, exc)
         elif it.kind == "at":
             streaming = bool(item[3]) if len(item) > 3 else False
             for act in atm.actions(item[1], item[2], streaming):
@@ -264,7 +288,7 @@ def run(case, filter_factory=DirectFilter, stop_on_exception=True, observer=None
             st = pf.execute(cmd) if isinstance(cmd, str) else None
             it.f_steps.append((st, pf.snap()))
         it.u_after = pu.snap()
-        it.open_after, it.enabled_after = is_open, enabled
+        it.open_after, it.enabled_after, it.active_after = is_open, enabled, active
         if observer is not None:
             observer(it, flt)
         tr.items.append(it)
